@@ -8,7 +8,7 @@ import types
 import numpy as _np
 import z3
 
-from pyvc import loader, symx
+from pyvc import core, loader, symx
 from pyvc.core import Refuted
 from pyvc.npx import X, val
 from pyvc.symx import AV, Explorer, zv
@@ -831,6 +831,109 @@ def _wrappers(chk):
     chk.obl("plane events: g(t,y) == y[idx] - offset", "K5 closed", [SH + ":_g_x0", SH + ":_g_y0", SH + ":_g_z0",
                                                                      SH + ":_get_cached_plane_event_fn"],
             "B4 exact evaluation", th_plane)
+
+    _REPLAY_PLANE_FWD = """
+import warnings, logging
+warnings.filterwarnings("ignore"); logging.disable(logging.CRITICAL)
+import numpy as np
+from hiten import System
+from hiten.algorithms.dynamics.base import _propagate_dynsys
+from hiten.algorithms.poincare.singlehit.backend import _SingleHitBackend
+from hiten.algorithms.poincare.core.events import _PlaneEvent
+s = System.from_bodies("earth", "moon")
+o = s.get_libration_point(1).create_orbit("halo", amplitude_z=0.2, zenith="southern")
+o.correct()
+x0, T = o.initial_state, o.period
+hit = _SingleHitBackend()._cross_event_driven(x0.copy(), dynsys=s.dynsys, surface=_PlaneEvent(coord="y", value=0.0, direction=None),
+                                              t0=0.1, tmax=5.0, forward=-1)
+ref = _propagate_dynsys(s.dynsys, x0, 0.0, abs(hit.time), forward=-1, steps=2, method="adaptive", order=8).states[-1]
+print("backward search from a halo start (period", T, "): reported time", hit.time, "state", hit.state[:3])
+print("state of the backward flow after that time:", ref[:3], "(first backward return to y = 0 is at", T / 2, ")")
+print("CONFIRMED" if np.abs(ref - hit.state).max() > 1e-6 else "NOT-CONFIRMED")
+"""
+
+    def th_plane_wrapper():
+        # the plane-crossing wrapper used by orbit correction: the search must run on the flow in the requested direction,
+        # start from the aligned state, cover the rest of the window, and report (elapsed time, state) of the hit
+        from hiten.algorithms.poincare.core.events import _PlaneEvent
+        import hiten.algorithms.dynamics.base as base
+
+        class Sys(base._DynamicalSystem):
+            def __init__(self):
+                super().__init__(dim=6)
+
+            def _build_rhs_impl(self):
+                return lambda t, y: _np.array([y[3] + t, y[4], y[5], -2.0 * y[0], 3.0 * y[1], y[2] * t])
+        for forward in (1, -1):
+            for tau, span_hit in ((0.625, True), (None, False)):
+                seen = {}
+
+                def propagate(dynsys, state0, t0, tf, forward=1, steps=1000, method="adaptive", order=8, flip_indices=None, **kw):
+                    # contract of _propagate_dynsys (C10): the state of the flow in direction `forward` after tf - t0
+                    if kw.get("event_fn") is not None:
+                        seen["search"] = dict(via="_propagate_dynsys", forward=forward, y0=_np.array(state0, float), t0=t0, tf=tf, kw=kw)
+                        th = tau if span_hit else (tf - t0)
+                        return _Obj(times=forward * _np.array([t0, t0 + th]), states=_np.array([list(state0), [7.0, 0.0, 5.0, 4.0, 3.0, 2.0]]))
+                    seen["align"] = dict(forward=forward, t0=t0, tf=tf)
+                    return _Obj(times=forward * _np.array([t0, tf]), states=_np.array([list(state0), [1.5, 2.5, 3.5, 4.5, 5.5, 6.5]]))
+
+                class Integ:
+                    def __init__(self, *a, **k):
+                        pass
+
+                    def integrate(self, system, y0, t_vals, *, event_fn=None, event_cfg=None, event_options=None, **k):
+                        seen["search"] = dict(via="integrator", system=system, y0=_np.array(y0, float), t0=float(t_vals[0]),
+                                              tf=float(t_vals[-1]), kw=dict(event_fn=event_fn, event_cfg=event_cfg))
+                        th = tau if span_hit else float(t_vals[-1]) - float(t_vals[0])
+                        return _Obj(times=_np.array([float(t_vals[0]), float(t_vals[0]) + th]),
+                                    states=_np.array([list(y0), [7.0, 0.0, 5.0, 4.0, 3.0, 2.0]]))
+                saved = (sh._propagate_dynsys, sh.RungeKutta)
+                sh._propagate_dynsys, sh.RungeKutta = propagate, Integ
+                try:
+                    sysm = Sys()
+                    hit = sh._SingleHitBackend._cross_event_driven(
+                        core.real_self(sh._SingleHitBackend), _np.array([1.0, 2.0, 3.0, 4.0, 5.0, 6.0]), dynsys=sysm,
+                        surface=_PlaneEvent(coord="y", value=0.0, direction=None), t0=0.25, tmax=2.25, forward=forward)
+                finally:
+                    sh._propagate_dynsys, sh.RungeKutta = saved
+                al, se = seen.get("align"), seen.get("search")
+                if se is None:
+                    raise Refuted("plane wrapper: no event search was started", str(seen))
+                if al is None or al["forward"] != forward or (al["tf"] - al["t0"]) != 0.25:
+                    raise Refuted("plane wrapper: the start is not aligned by the flow of the requested direction over t0",
+                                  str(al), inputs={"forward": forward})
+                if list(se["y0"]) != [1.5, 2.5, 3.5, 4.5, 5.5, 6.5] or abs((se["tf"] - se["t0"]) - 2.0) > 1e-12:
+                    raise Refuted("plane wrapper: the search does not start from the aligned state / does not cover the rest of "
+                                  "the window", f"y0 {list(se['y0'])} span {se['tf'] - se['t0']}", inputs={"forward": forward})
+                g = se["kw"].get("event_fn")
+                yy = _np.array([0.5, -1.25, 2.0, 0, 0, 0])
+                if g is None or g(0.0, yy) != -1.25:
+                    raise Refuted("plane wrapper: the search does not receive the section's event function", repr(g))
+                if se["via"] == "integrator":
+                    # the field integrated by the search must be that of the flow in the requested direction
+                    yq, tq = _np.array([0.5, -1.5, 2.0, 0.25, 4.0, -3.0]), 0.75
+                    got = _np.asarray(se["system"].rhs(tq, yq), float)
+                    want = forward * _np.asarray(sysm.rhs(forward * tq, yq), float)
+                    if got.tolist() != want.tolist():
+                        raise Refuted(f"plane wrapper: with forward={forward} the event search integrates the field {got.tolist()} "
+                                      f"at (t, y) = ({tq}, {yq.tolist()}); the flow in the requested direction has "
+                                      f"{want.tolist()} - the crossing found is not on the requested trajectory",
+                                      "event search ignores `forward`", replay=_REPLAY_PLANE_FWD, inputs={"forward": forward})
+                elif se["forward"] != forward:
+                    raise Refuted(f"plane wrapper: with forward={forward} the event search runs with forward={se['forward']}",
+                                  "event search ignores `forward`", replay=_REPLAY_PLANE_FWD, inputs={"forward": forward})
+                if span_hit:
+                    if hit is None or abs(abs(hit.time) - (0.25 + tau)) > 1e-12 or list(hit.state) != [7.0, 0.0, 5.0, 4.0, 3.0, 2.0]:
+                        raise Refuted("plane wrapper: a hit inside the window is not reported as (t0 + elapsed, state at the hit)",
+                                      f"forward={forward}: {None if hit is None else (hit.time, list(hit.state))}")
+                elif hit is not None:
+                    raise Refuted("plane wrapper: the end of the window is reported as a crossing",
+                                  f"forward={forward}: {(hit.time, list(hit.state))}")
+    chk.obl("_SingleHitBackend._cross_event_driven (plane-crossing wrapper of orbit correction): for forward = +1 and -1 the "
+            "start is aligned and the event search runs on the flow in the requested direction, from the aligned state over the "
+            "rest of the window, with the section's event; a hit is (t0 + elapsed, state), the end of the window is no hit",
+            "K2 wiring (callees replaced by their contracts)", [SH + ":_SingleHitBackend._cross_event_driven"],
+            "B4 exact evaluation", th_plane_wrapper)
 
 
 def run(chk):
